@@ -1,16 +1,21 @@
 /-
   C15 — executable model of how yaegi orders and runs the initialisation of a package
   (interp/cfg.go `getVars`, `getVarDependencies`, `genGlobalVarDecl`, `genGlobalVars`;
-   interp/program.go `CompileAST` / `Execute`; interp/src.go `importSrc`).
+   interp/program.go `CompileAST` / `Execute`; interp/src.go `importSrc`; the registration of init
+   functions in the `funcDecl` case of `cfg` and of `gta`).
 
-  Two layers:
+  Three layers:
   * the *graph layer* the theorems talk about: variable specifications are numbered `0 … n-1`
     in source order (the list `getVars` builds), `g : Deps` gives for each its collected
     dependencies, `orderY g` is the loop of `genGlobalVarDecl` exactly as written (since the repair
     of F15: the scan restarts from the earliest remaining specification after every append);
   * the *package layer* the driver runs: a package is a list of variable specifications with the
     identifiers occurring in their initialisers and a list of functions/methods with the identifiers
-    of their bodies; `collectDepsY` is `getVarDependencies`, `runY` is `Execute`.
+    of their bodies; `collectDepsY` is `getVarDependencies`, `runY` is `Execute`;
+  * the *declaration layer*: a package as source — files, each a list of declarations (variable
+    specifications, function declarations with receiver / name / parameter counts, types);
+    `pkgInits` is the list `initNodes` that `cfg` and `importSrc` build under the registration
+    condition read from the source (`InitFacts`), `SrcPkg.toPkg` feeds it to the package layer.
   Core Lean only.
 -/
 namespace YaegiVerif.VarInit
@@ -210,6 +215,177 @@ def runY (f : ExecFacts) (p : Pkg) : Trace :=
 def runImportY (f : ExecFacts) (p : Pkg) : Trace :=
   if gtaRejects p then ⟨[], true⟩ else
   runSteps (orderY (collectDepsY p)) p false f.importSrc
+
+/-! ### declaration layer: which declarations are init functions
+
+  `cfg` (interp/cfg.go) walks the declarations of one file in source order; in the pre-order
+  processing of a `funcDecl` node it tests a condition on the node and, when it holds, adds the node
+  to the list `initNodes` it returns. `CompileAST` (one file) takes that list, `importSrc` joins the
+  lists of the files of the directory in file order; `Execute` / `importSrc` then run the list from
+  first to last (the `init` step of `runSteps`). `gta` decides in a `switch` which function
+  declarations get a symbol in the package scope. The condition, the way the node is added, the way
+  the per-file lists are joined and the cases of the `switch` are *facts read from the source*
+  (`InitFacts`, regenerated by the extractor). -/
+
+/-- receiver of a function declaration: none (a function), `(r T)`, `(r *T)` -/
+inductive Recv where
+  | none
+  | value
+  | pointer
+  deriving DecidableEq, Repr
+
+/-- a `funcDecl` node. `label`: what the body logs when it runs; `ids`: the identifiers of the body
+    (as in `Func`); `locals`: the local variables the body declares (a local may be called `init`);
+    `pos`: ordinal of the declaration among the function declarations of its file (display only). -/
+structure FuncDecl where
+  name : String
+  recv : Recv := .none
+  recvType : String := ""
+  tparams : Nat := 0
+  params : Nat := 0
+  results : Nat := 0
+  label : String := ""
+  ids : List Ident := []
+  locals : List String := []
+  pos : Nat := 0
+  deriving DecidableEq, Repr
+
+/-- a top-level declaration of a file -/
+inductive Decl where
+  | var (v : VarSpec)
+  | func (f : FuncDecl)
+  | type (name : String) (fields : List String)
+  deriving DecidableEq, Repr
+
+/-- one conjunct of the condition under which `cfg` adds a `funcDecl` node to `initNodes`:
+    `n.child[1].ident == "s"`, `len(n.child[0].child) == 0` (no receiver),
+    `len(n.child[2].child[k].child) == 0` for k = 0, 1, 2 (no type parameter / parameter / result);
+    `strings.HasPrefix(n.child[1].ident, "s")`, `strings.EqualFold(n.child[1].ident, "s")` (ASCII);
+    `other`: a conjunct the extractor does not know (the model cannot evaluate it: taken as true,
+    the tie theorem fails) -/
+inductive RegCond where
+  | nameIs (s : String)
+  | namePrefix (s : String)
+  | nameFold (s : String)
+  | recvEmpty
+  | tparamsEmpty
+  | paramsEmpty
+  | resultsEmpty
+  | other (text : String)
+  deriving DecidableEq, Repr
+
+/-- `initNodes = append(initNodes, n)` / `append([]*node{n}, initNodes...)`; for the per-file lists
+    `initNodes = append(initNodes, nodes...)` / `append(nodes, initNodes...)` -/
+inductive AddMode where
+  | append
+  | prepend
+  | other (text : String)
+  deriving DecidableEq, Repr
+
+/-- one case of the `switch` of `gta` over a `funcDecl`: `isMethod(n)`, `ident == "s"` (no symbol
+    is declared), `default` (the function symbol is written to the package scope) -/
+inductive GtaCase where
+  | method
+  | nameIs (s : String)
+  | default
+  | other (text : String)
+  deriving DecidableEq, Repr
+
+structure InitFacts where
+  /-- conjuncts of the registration condition, in source order -/
+  register : List RegCond
+  /-- how `cfg` adds the node -/
+  add : AddMode
+  /-- how `importSrc` joins the list of one file to those of the files before it -/
+  join : AddMode
+  /-- cases of the `switch` in `gta`, in source order -/
+  gta : List GtaCase
+  deriving DecidableEq, Repr
+
+def RegCond.holds (f : FuncDecl) : RegCond → Bool
+  | .nameIs s => f.name == s
+  | .namePrefix s => s.toList.isPrefixOf f.name.toList
+  | .nameFold s => f.name.toList.map Char.toLower == s.toList.map Char.toLower
+  | .recvEmpty => f.recv == .none
+  | .tparamsEmpty => f.tparams == 0
+  | .paramsEmpty => f.params == 0
+  | .resultsEmpty => f.results == 0
+  | .other _ => true
+
+/-- the condition of `cfg`: all conjuncts hold -/
+def registers (c : List RegCond) (f : FuncDecl) : Bool := c.all (RegCond.holds f)
+
+def AddMode.add {α : Type} (m : AddMode) (acc new : List α) : List α :=
+  match m with
+  | .prepend => new ++ acc
+  | _ => acc ++ new
+
+/-- `cfg(root, …)` restricted to what it returns: walk the declarations of the file in source
+    order, add the function declarations for which the condition holds -/
+def cfgInits (i : InitFacts) : List Decl → List FuncDecl → List FuncDecl
+  | [], acc => acc
+  | .func f :: ds, acc => cfgInits i ds (if registers i.register f then i.add.add acc [f] else acc)
+  | _ :: ds, acc => cfgInits i ds acc
+
+/-- the `initNodes` of a package: the lists of its files joined in file order (`importSrc`; for
+    `CompileAST` the package is one file) -/
+def pkgInits (i : InitFacts) (files : List (List Decl)) : List FuncDecl :=
+  files.foldl (fun acc file => i.join.add acc (cfgInits i file [])) []
+
+def GtaCase.hits (f : FuncDecl) : GtaCase → Bool
+  | .method => f.recv != .none
+  | .nameIs s => f.name == s
+  | .default => true
+  | .other _ => false
+
+/-- the first case of the `switch` that applies -/
+def gtaCase (cs : List GtaCase) (f : FuncDecl) : Option GtaCase := cs.find? (GtaCase.hits f)
+
+/-- names for which `gta` writes a function symbol to the package scope (`default` case) -/
+def declaredFuncs (i : InitFacts) (ds : List Decl) : List String :=
+  ds.filterMap (fun d => match d with
+    | .func f => if gtaCase i.gta f = some .default then some f.name else none
+    | _ => none)
+
+def declVars (ds : List Decl) : List VarSpec :=
+  ds.filterMap (fun d => match d with | .var v => some v | _ => none)
+
+def declFuncs (ds : List Decl) : List FuncDecl :=
+  ds.filterMap (fun d => match d with | .func f => some f | _ => none)
+
+/-- the name under which the identifier lists refer to the function: `f`, `T.m` -/
+def FuncDecl.key (f : FuncDecl) : String :=
+  match f.recv with
+  | .none => f.name
+  | _ => f.recvType ++ "." ++ f.name
+
+def FuncDecl.toFunc (f : FuncDecl) : Func := ⟨f.key, f.ids⟩
+
+/-- a package as source: its files in the order in which they are read, each a list of
+    declarations in source order; `main`: label logged by `main`; `after`: what the ordinary calls
+    made by `main` log after that (calls of functions and methods that look like init functions) -/
+structure SrcPkg where
+  files : List (List Decl)
+  main : Option String
+  after : List String := []
+  deriving DecidableEq, Repr
+
+def SrcPkg.decls (s : SrcPkg) : List Decl := s.files.flatten
+
+/-- the package the ordering and execution code sees: the variable specifications and functions of
+    all files in order, the labels of the registered init nodes -/
+def SrcPkg.toPkg (i : InitFacts) (s : SrcPkg) : Pkg :=
+  ⟨declVars s.decls, (declFuncs s.decls).map FuncDecl.toFunc, (pkgInits i s.files).map (·.label), s.main⟩
+
+/-- `main` goes on with its calls unless the run stopped with an error -/
+def Trace.andThen (t : Trace) (after : List String) : Trace :=
+  if t.err then t else ⟨t.events ++ after, false⟩
+
+/-- `Eval` of the package given as one file -/
+def runSrcY (f : ExecFacts) (i : InitFacts) (s : SrcPkg) : Trace := (runY f (s.toPkg i)).andThen s.after
+
+/-- `importSrc` of the package given as a directory -/
+def runSrcImportY (f : ExecFacts) (i : InitFacts) (s : SrcPkg) : Trace := (runImportY f (s.toPkg i)).andThen s.after
 
 /-! ### several packages: `importSrc` -/
 
